@@ -145,6 +145,12 @@ def run_case(case):
             src = io.BytesIO(akai_files_image(names)[0])
         elif kind == "akai_dirs":
             src = io.BytesIO(akai_dirs_image(names)[0])
+        elif kind == "akai_volalias":
+            # two (three) volume entries naming ONE directory: the same samples under each volume name
+            files = [{"name": "KICK", "n": 12, "chain": [4], "seq": 1}, {"name": "SNARE", "n": 14, "chain": [5], "seq": 2}]
+            vols = [{"name": names[0], "dir": [3], "files": files}] + \
+                   [{"name": nm, "dir": [3], "files": files, "alias": True} for nm in names[1:]]
+            src = io.BytesIO(A.build_akai(A.model_from_spec({"parts": [{"vols": vols}]}))[0])
         elif kind == "akai_parts":
             # many partitions: the letters the tool gives them run past 'Z' into '[', '\\', ']', '^', '_', '`', 'a' ...
             parts = [{"vols": [{"name": nm, "dir": [3], "files": [{"name": "SMP", "n": 12, "chain": [4], "seq": 1 + i}]}]}
@@ -221,7 +227,7 @@ class Check(CheckBase):
             "Roland sample / performance / volume names (also below the pseudo volume that collects orphan performances, with and "
             "without real volumes on the disk) and as cue TITLEs; export into <scratch>/w/deep/dest with the "
             "parents watched; names differing only in the length of a blank run (8 cue titles k<=3, 5 AKAI names k=3); 201-entry AKAI volumes with a pair / a duplicate whose stem is owned by a sibling 2..200 places away; "
-            "AKAI images of 26 / 27 / 30 / 34 partitions (generated partition names beyond 'Z'); singles, doubled names and neighbouring (thorough: all) pairs again on an image object whose root "
+            "AKAI volumes whose entries share one directory; AKAI images of 26 / 27 / 30 / 34 partitions (generated partition names beyond 'Z'); singles, doubled names and neighbouring (thorough: all) pairs again on an image object whose root "
             "and first-level items were listed before the export. Oracle: nothing created outside dest; Exported lines pairwise distinct and as many as files; "
             "every component non-empty, [\\w -.#()] only, begins with \\w, does not end in space or dot. non-trivial = two "
             "names equal after removing everything but \\w, or a separator / dot-dot in a name")
@@ -307,6 +313,10 @@ class Check(CheckBase):
             cases.append({"kind": "akai_files", "names": big(201, [(p - 2, "PAD-L"), (p - 1, "PAD-R"), (0, "PAD")])})
             cases.append({"kind": "akai_files", "names": big(201, [(0, "PAD-L"), (1, "PAD-R"), (p - 1, "PAD L"), (p, "PAD R")])})
             cases.append({"kind": "akai_files", "names": big(201, [(0, "DUP"), (p, "DUP")])})
+        # volume entries that share one directory (legal: the same start sector under two names)
+        for names in (["VOL A", "VOL B"], ["VOL", "VOL"], ["A", "B", "A."]):
+            cases.append({"kind": "akai_volalias", "names": names})
+            cases.append({"kind": "akai_volalias", "names": names, "listed": True})
         # images of 27 .. 34 partitions (partition names are generated, not stored: letters from 'A' on)
         for n in (26, 27, 30, 34):
             cases.append({"kind": "akai_parts", "names": ["V%02d" % i for i in range(n)]})
